@@ -23,6 +23,10 @@ ASSUMPTIONS = [
 ]
 
 
+# the two mixins are compared on ordinary classes and on classes whose instances all compare equal
+PAIRS = {"plain": ("HNM", "HLM"), "eq": ("HEqNM", "HEqLM")}
+
+
 def outcome(exc):
     if exc is None:
         return ["ok"]
@@ -99,8 +103,9 @@ def observe(universe, labels):
 def check_case(case, acc):
     state = case.get("state") or mut.all_roots(case["n"])
     route = case.get("route", "parent")
-    rec_a, uni_a = mut.make_universe("HNM", state, route)
-    rec_b, uni_b = mut.make_universe("HLM", state, route)
+    pair = PAIRS[case.get("pair", "plain")]
+    rec_a, uni_a = mut.make_universe(pair[0], state, route)
+    rec_b, uni_b = mut.make_universe(pair[1], state, route)
     changes = refused = 0
     for item in case["steps"]:
         op, plan = item["op"], item.get("plan") or {}
@@ -156,6 +161,8 @@ def plan(tier, seed):
         shards = 1 if n < 3 else (nshards if n == 3 else nshards * 4)
         for i in range(shards):
             tasks.append({"engine": "enum", "n": n, "index": i, "count": shards, "maxlen": None if n <= 3 else 2, "routes": None if n <= 3 else ["parent"]})
+            if n <= 3:
+                tasks.append({"engine": "enum", "pair": "eq", "n": n, "index": i, "count": shards, "maxlen": None, "routes": ["parent"]})
     examples = 80 if tier == "quick" else 500
     for i in range(nshards):
         tasks.append({"engine": "hyp", "examples": examples, "seed": seed * 1000 + i})
@@ -164,10 +171,13 @@ def plan(tier, seed):
 
 def run_task(task, acc):
     if task["engine"] == "enum":
-        cases = mut.enum_fault_cases("HNM", task["n"], task["index"], task["count"], fault_hooks=mut.HOOKS, pairs=False, invalid=False, maxlen=task["maxlen"], routes=task["routes"])
-        acc.run_enum(check_case, cases)
+        cases = mut.enum_fault_cases("HNM", task["n"], task["index"], task["count"], fault_hooks=mut.HOOKS if task.get("pair", "plain") == "plain" else (), pairs=False, invalid=False, maxlen=task["maxlen"], routes=task["routes"])
+        acc.run_enum(check_case, (dict(c, pair=task.get("pair", "plain")) for c in cases))
     else:
-        acc.run_hypothesis(check_case, mut.history_strategy(max_nodes=7, max_steps=25, faults="all", invalid=False, class_specs=["HNM"]), task["examples"], task["seed"])
+        from hypothesis import strategies as st
+
+        strat = st.tuples(mut.history_strategy(max_nodes=7, max_steps=25, faults="all", invalid=False, class_specs=["HNM"]), st.sampled_from(["plain", "plain", "eq"])).map(lambda t: dict(t[0], pair=t[1]))
+        acc.run_hypothesis(check_case, strat, task["examples"], task["seed"])
 
 
 def evidence_extra(total, tier):
